@@ -80,7 +80,7 @@ def float_syntax_item(item):
     if item[0] != "rh" or "/" not in item[2]:
         return False
     score = item[2].split("/", 1)[0]
-    return "_" in score or any(ord(c) > 127 for c in score)
+    return "_" in score or any(ord(c) > 127 or c in "\x0b\x0c\x1c\x1d\x1e\x1f" for c in score)
 
 
 def _diff_failure(item, want, got, pyver):
@@ -132,7 +132,7 @@ def corpus_part(n_examples, shard):
 
     @st.composite
     def item(draw):
-        kind = draw(st.sampled_from(("ctor-valid", "ctor-valid", "ctor-mutant", "ctor-long", "cli-long", "cli-new-unicode", "ctor-text", "ctor-cross", "rh", "rh-bad", "rh-near", "rh-float-syntax", "text",
+        kind = draw(st.sampled_from(("ctor-valid", "ctor-valid", "ctor-mutant", "ctor-long", "cli-long", "cli-new-unicode", "ctor-text", "ctor-cross", "rh", "rh-bad", "rh-near", "rh-float-syntax", "rh-long-score", "rh-long-score", "text",
                                      "interactive", "cli-vector", "cli-vector", "cli-interactive")))
         ver = draw(gen.version_key())
         if kind == "ctor-valid":
@@ -176,8 +176,15 @@ def corpus_part(n_examples, shard):
             v = draw(gen.valid(ver))
             base = scorecheck.as_floats(scorecheck.expected_scores(ver, v))[0]
             t = "%.1f" % base
-            alt = draw(st.sampled_from((t.replace(".", "_."), t[0] + "_" + t[1:], "0_" + t, t + "_0", t.replace(t[0], chr(0x1FBF0 + int(t[0])), 1) if t[0].isdigit() else t)))
+            alt = draw(st.sampled_from((t.replace(".", "_."), t[0] + "_" + t[1:], "0_" + t, t + "_0", t.replace(t[0], chr(0x1FBF0 + int(t[0])), 1) if t[0].isdigit() else t,
+                                        t + "\x1c", "\x1f" + t, t + "\x0b", "\x0c" + t, t + "\u180e", t + "\x85")))
             return kind, ["rh", ver, alt + "/" + v]
+        if kind == "rh-long-score":
+            from .. import scorecheck
+            v = draw(gen.valid(ver))
+            t = "%.1f" % scorecheck.as_floats(scorecheck.expected_scores(ver, v))[0]
+            n = draw(st.sampled_from((100, 4301, 5000, 20000)))
+            return kind, ["rh", ver, draw(st.sampled_from((t + "0" * n, "0" * n + t, t + "0" * n + "1"))) + "/" + v]
         if kind == "rh-bad":
             sc = draw(st.sampled_from(("", "x", "nan", "7.50", " 7.5", "1e1", "10", "-0.0", "7,5", "٣")))
             return kind, ["rh", ver, sc + draw(st.sampled_from(("/", "", "|"))) + draw(gen.mutated(ver))[0]]
@@ -304,6 +311,6 @@ def run(tier, t0):
                          ["reference interpreter: /venv/bin/python (3.12), tied to the specification by C01-C17",
                           "hash() values and the key order of unsorted dicts are not observables; text-extraction results compared sorted",
                           "interpreters found: %s" % ", ".join(found)],
-                         required=["kind:" + k for k in ("ctor-valid", "ctor-mutant", "ctor-long", "cli-long", "cli-new-unicode", "ctor-text", "ctor-cross", "rh", "rh-bad", "rh-near", "rh-float-syntax", "text", "interactive", "interactive-bytes", "cli-vector", "cli-interactive", "interactive-nonascii")]
+                         required=["kind:" + k for k in ("ctor-valid", "ctor-mutant", "ctor-long", "cli-long", "cli-new-unicode", "ctor-text", "ctor-cross", "rh", "rh-bad", "rh-near", "rh-float-syntax", "rh-long-score", "text", "interactive", "interactive-bytes", "cli-vector", "cli-interactive", "interactive-nonascii")]
                          + ["python:" + f for f in found],
                          extra={"interpreters": found + ["venv-3.12 (reference)"], "corpus_items": len(items)})
